@@ -510,7 +510,7 @@ DT_REGEX = re.compile(
                 (
                     \[(?P<gmt_offset_hours>[0-9-+]+)
                     (
-                        (\.(?P<gmt_offset_minutes>\d\d))?
+                        (\.(?P<gmt_offset_minutes>[0-5][0-9]))?
                         (:(?P<tz_name>.*))?
                     )?
                     \]
@@ -518,7 +518,7 @@ DT_REGEX = re.compile(
             )?
         )?
     )?
-    $
+    \Z
     """,
     re.VERBOSE,
 )
@@ -677,13 +677,13 @@ TIME_REGEX = re.compile(
         (
             \[(?P<gmt_offset_hours>[0-9-+]+)
             (
-                (\.(?P<gmt_offset_minutes>\d\d))?
+                (\.(?P<gmt_offset_minutes>[0-5][0-9]))?
                 (:(?P<tz_name>.*))?
             )?
             \]
         )?
     )?
-    $
+    \Z
     """,
     re.VERBOSE,
 )
